@@ -62,6 +62,7 @@ structure Mach (ω ρ : Type) where
   seek     : ρ → Nat → Res ρ
   dump     : ω → List Nat
   mkReader : List Nat → ρ
+  newWriter : ω              -- a fresh writer of the same configuration
   copyTo   : ρ → ω → Nat → Res (ρ × ω)
   copyFrom : ω → ρ → Nat → Res (ρ × ω)
   noOneAhead : ρ → Bool     -- zero-extended and no one bit ahead: a unary read would not return
@@ -153,6 +154,17 @@ def sessStep {ω ρ} (M : Mach ω ρ) (s : Sess ω ρ) (op : List String) : Stri
     | some bs => wres ((ioWrite M.e M.ioChunk bs).run M.wi s.w)
     | none => bad
   | ["wd"] => (bytesHex (M.dump s.w), some s)
+  | ["wdrop"] =>      -- Drop flushes (and unwraps the result: an error there would be a panic)
+    match M.wi.flush s.w with
+    | .ok (_, w') => (bytesHex (M.dump w'), some { s with w := M.newWriter })
+    | .err _ => ("P", none)
+    | r => (showRes (fun _ => "") r, none)
+  | ["winto"] =>      -- into_inner flushes and returns the backend; when that flush fails the writer
+                      -- is dropped on the error path, and Drop flushes again and unwraps: a panic
+    match M.wi.flush s.w with
+    | .ok (_, w') => (bytesHex (M.dump w'), some { s with w := M.newWriter })
+    | .err _ => ("P", none)
+    | r => (showRes (fun _ => "") r, none)
   | ["rb", n] =>
     match num? n with
     | some n => rres (M.ri.readBits s.r n)
@@ -299,6 +311,7 @@ def machL3 (e : Endian) (ww rw : Nat) (bitReader strict checks : Bool) (cap : Op
       match cap with
       | some c => bs ++ List.replicate ((c - w.out.length) * (ww / 8)) 0
       | none => bs,
+    newWriter := BufW.new ww checks cap,
     mkReader := fun bytes =>
       if bitReader then .bit { data := { data := wordsOfBytes e 64 bytes, strict := strict } }
       else .buf (BufR.new { data := wordsOfBytes e rw bytes, strict := strict }),
@@ -331,6 +344,7 @@ def machL1 (e : Endian) (ww rw : Nat) (bitReader strict checks : Bool) (cap : Op
       match cap with
       | some c => bs ++ List.replicate (c * (ww / 8) - bs.length) 0
       | none => bs,
+    newWriter := { e := e, W := ww, checks := checks, cap := cap },
     mkReader := fun bytes =>
       { e := e, stream := bitsOfBytes e (padTo (rwb / 8) bytes), strict := strict, peekMax := peekMax },
     copyTo := fun r w n =>
@@ -384,6 +398,7 @@ def machCount {ω ρ} (M : Mach ω ρ) : Mach (CountW ω) (CountR ρ) :=
     seek := fun r p => (M.seek r.inner p).map fun i => { r with inner := i },
     dump := fun w => M.dump w.inner,
     mkReader := fun bytes => { inner := M.mkReader bytes },
+    newWriter := { inner := M.newWriter },
     -- the wrappers do not override the bulk copies: the generic loop runs through them
     copyTo := fun r w n => copyGeneric ri wi (n / 64 + 2) r w n,
     copyFrom := fun w r n => copyGeneric ri wi (n / 64 + 2) r w n,
@@ -423,6 +438,7 @@ def machCountRef (M : Mach RefW RefR) : Mach (CountW RefW) (CountR RefR) :=
     seek := fun r p => (M.seek r.inner p).map fun i => { r with inner := i },
     dump := fun w => M.dump w.inner,
     mkReader := fun bytes => { inner := M.mkReader bytes },
+    newWriter := { inner := M.newWriter },
     copyTo := fun r w n => (M.copyTo r.inner w.inner n).map fun (ri', wi') =>
       ({ r with inner := ri' }, { inner := wi', bitsWritten := w.bitsWritten + n }),
     copyFrom := fun w r n => (M.copyFrom w.inner r.inner n).map fun (ri', wi') =>
